@@ -146,6 +146,41 @@ def single_field_subscriptions(rng, sv, doc):
     return d, "new-subscription-two-fields"
 
 
+def single_field_subscriptions_collected(rng, sv, doc):
+    """a second root field of a subscription that is only visible to `CollectFields` (spec 5.2.3.1, counter-examples
+    102 / 103): inside an inline fragment (with or without type condition) or a fragment (hunt2 C06/2: the rule counted
+    the WRITTEN selections). New operation `SubY` so that the rest of the document stays as it is."""
+    root = sv.root("subscription")
+    if not root:
+        return None
+    d = copy.deepcopy(doc)
+    lf = leaf_field(sv, root)
+    if not lf or any(o["name"] is None for o in ops(d)):
+        return None
+    f1, f2 = rng.choice(lf), rng.choice(lf)
+    a, b = mk_field(f1, alias="zy1"), mk_field(f2, alias="zy2")
+    how = rng.choice(["inline-typed", "inline-bare", "fragment", "nested-fragment", "field-and-fragment"])
+    uid = "Zs%d" % rng.randint(0, 999)
+    if how == "inline-typed":
+        sels = [{"k": "inline", "on": root, "dirs": [], "sels": [a, b]}]
+    elif how == "inline-bare":
+        sels = [{"k": "inline", "on": None, "dirs": [], "sels": [a, b]}]
+    elif how == "fragment":
+        d["defs"].insert(rng.randint(0, len(d["defs"])), {"k": "frag", "name": uid, "on": root, "dirs": [], "sels": [a, b]})
+        sels = [{"k": "spread", "name": uid, "dirs": []}]
+    elif how == "nested-fragment":
+        d["defs"].insert(rng.randint(0, len(d["defs"])), {"k": "frag", "name": uid + "b", "on": root, "dirs": [], "sels": [b]})
+        d["defs"].insert(rng.randint(0, len(d["defs"])), {"k": "frag", "name": uid, "on": root, "dirs": [],
+                                                          "sels": [a, {"k": "spread", "name": uid + "b", "dirs": []}]})
+        sels = [{"k": "spread", "name": uid, "dirs": []}]
+    else:
+        d["defs"].insert(rng.randint(0, len(d["defs"])), {"k": "frag", "name": uid, "on": root, "dirs": [], "sels": [b]})
+        sels = [a, {"k": "spread", "name": uid, "dirs": []}]
+        rng.shuffle(sels)
+    d["defs"].insert(rng.randint(0, len(d["defs"])), {"k": "op", "op": "subscription", "name": "SubY", "vars": [], "dirs": [], "sels": sels})
+    return d, "second-root-field-through-" + how
+
+
 def fields_on_correct_type(rng, sv, doc):
     d = copy.deepcopy(doc)
     p = Pos(sv, d)
@@ -780,6 +815,30 @@ def input_object_field_uniqueness(rng, sv, doc):
     return d, "duplicated-input-field"
 
 
+BUILTIN_SCALARS = ("Int", "Float", "String", "Boolean", "ID")
+
+
+def input_field_uniqueness_in_custom_scalar(rng, sv, doc):
+    """a duplicated key inside an object literal given where a CUSTOM SCALAR is expected (hunt2 C06/1: the values rule
+    accepted the literal and raised SkipNode, hiding the duplicate from UniqueInputFieldNamesChecker)"""
+    d = copy.deepcopy(doc)
+    p = Pos(sv, d)
+    cands = []
+    for s, par, df, _ in p.fields:
+        f = p.fielddef(s, par)
+        for ad in (f.get("args") or []) if f else []:
+            b = gs.ty_base(ad["type"])
+            if sv.kind(b) == "scalar" and b not in BUILTIN_SCALARS and strip(ad["type"])[0] == "named":
+                cands.append((s, ad))
+    if not cands:
+        return None
+    s, ad = rng.choice(cands)
+    dup = ("obj", [("k", ("int", "1")), ("j", ("str", "x")), ("k", ("int", "2"))])
+    val = dup if rng.random() < 0.6 else ("obj", [("outer", dup)])
+    s["args"] = [a for a in s["args"] if a["name"] != ad["name"]] + [{"name": ad["name"], "value": val}]
+    return d, "duplicated-input-field-inside-custom-scalar-object"
+
+
 def directives_are_defined(rng, sv, doc):
     d = copy.deepcopy(doc)
     p = Pos(sv, d)
@@ -1308,6 +1367,7 @@ INJECTORS = [
     ("unique_operation_names", "5.2.1.1", ["UniqueOperationNameChecker"], unique_operation_names),
     ("lone_anonymous_operation", "5.2.2.1", ["LoneAnonymousOperationChecker"], lone_anonymous_operation),
     ("single_field_subscriptions", "5.2.3.1", ["SingleFieldSubscriptionsChecker"], single_field_subscriptions),
+    ("single_field_subscriptions", "5.2.3.1", ["SingleFieldSubscriptionsChecker"], single_field_subscriptions_collected),
     ("fields_on_correct_type", "5.3.1", ["FieldsOnCorrectTypeChecker"], fields_on_correct_type),
     ("overlapping_fields_can_be_merged", "5.3.2", ["OverlappingFieldsCanBeMergedChecker"], overlapping_fields),
     ("leaf_field_selections", "5.3.3", ["ScalarLeafsChecker"], leaf_field_selections),
@@ -1326,6 +1386,7 @@ INJECTORS = [
     ("values_of_correct_type", "5.6.1", ["ValuesOfCorrectTypeChecker"], values_of_correct_type),
     ("input_object_field_names", "5.6.2", ["ValuesOfCorrectTypeChecker"], input_object_field_names),
     ("input_object_field_uniqueness", "5.6.3", ["UniqueInputFieldNamesChecker"], input_object_field_uniqueness),
+    ("input_object_field_uniqueness", "5.6.3", ["UniqueInputFieldNamesChecker"], input_field_uniqueness_in_custom_scalar),
     ("directives_are_defined", "5.7.1", ["KnownDirectivesChecker"], directives_are_defined),
     ("directives_in_valid_locations", "5.7.2", ["KnownDirectivesChecker"], directives_in_valid_locations),
     ("unique_directives_per_location", "5.7.3", ["UniqueDirectivesPerLocationChecker"], unique_directives_per_location),
